@@ -998,7 +998,7 @@ def refuses_only_when(ctx: Context, rule: str, qualname: str, marker: str, condi
     ctx.need(rule, bool(raises), f"{fi.short} has the refusal `{marker}`", fi)
     conditions = list(conditions)
     for r in raises:
-        fs = facts(ctx, fi, r, expand=True)
+        fs = facts(ctx, fi, r, expand=True) | facts(ctx, fi, r, expand=False)
         ok = any(c in fs for c in conditions)
         ctx.check(rule, ok, what, fi, r, construct=f"{fi.short}: `{marker}` raised under {sorted(t if pol else 'not (' + t + ')' for t, pol in fs)[:4]}")
 
